@@ -42,6 +42,9 @@ RULE = (
     "dyadic lattices) or identical bounding box but a different hull, then A again - fresh objects and the same ndarrays modified in place, array and grid "
     "forms, identical queries; twin grids with mirrored hole patterns for project_grid. Constructions (stream constructions): the same (northing, easting) "
     "variable in Datasets / DataArrays put together in nine / six different ways (coordinates declared in either order, to_dataset, non-index coordinates first). "
+    "Axes (stream axes and every project_grid stream): grids whose northing and/or easting vector is stored in decreasing order, unevenly spaced monotone "
+    "axes and both combined, with hulls that are not symmetric under a flip (triangles, L-shapes). Names: None, strings, falsy names (0, 0.0, '', False) and "
+    "non-string names (1, (1, 2), numpy integers, True, 2.5) - compared by type and value. "
     "methods nearest/linear/cubic and gridder objects, both antialias settings, region/shape/spacing/dims kwargs; projected grids keep "
     "cell_aspect*(1+offset/extent) <= 1e4 except in the always-on stream pg_anisotropic (>= 1e5, known finding F10). Non-trivial = at least one "
     "query strictly inside and one strictly outside (mask) or a non-identity projection with a non-square grid (project_grid); distinct = "
@@ -59,6 +62,7 @@ ASSUMPTIONS = [
     "known finding F11: on hulls thinner than 1e-2 (width/diameter, normalised frame) the main streams do not query the data points themselves; "
     "that class runs in the small stream thin_vertices. All other queries on thin hulls (uniform, boundary-hugging, hull vertices) stay in the main streams",
 ]
+AXES_ORIENTATIONS_ = ["ascending", "northing_descending", "easting_descending", "both_descending"]
 FLOORS = {
     "quick": {"eval:mask_array": 120000, "eval:mask_grid": 55000, "eval:mask_affine_invariance": 50000, "eval:mask_forms_agree": 14000,
               "eval:pg_container": 240, "eval:pg_coordinates": 240, "eval:pg_nan_outside_hull": 6500, "eval:pg_finite_inside_hull": 22000,
@@ -79,7 +83,7 @@ LAYOUT_CLASSES = (
        "grid_strided_coordinate_vectors"]
 )
 PG_LAYOUT_CLASSES = ["pg_values_fortran", "pg_values_transposed_view", "pg_transposed_twice", "pg_values_strided_coords_views", "pg_values_readonly_fortran"]
-for _tier, _n in (("quick", 60), ("thorough", 1200)):
+for _tier, _n in (("quick", 50), ("thorough", 1000)):
     FLOORS[_tier].update({"layout:" + k: int(0.4 * _n) for k in LAYOUT_CLASSES})
     FLOORS[_tier].update({"layout:" + k: int(0.2 * _n) for k in PG_LAYOUT_CLASSES})
     FLOORS[_tier].update({"eval:mask_layout_invariance": 1300 * _n, "eval:pg_layout_invariance": 110 * _n,
@@ -92,7 +96,7 @@ CONSTRUCTION_CLASSES = (
     + ["project_grid:" + k for k in ("canonical", "coords_easting_first", "from_dataset_easting_first", "to_dataset_and_back",
                                      "non_index_coordinates_declared_first", "coords_as_list_of_pairs")]
 )
-for _tier, _twins, _cons in (("quick", 60, 40), ("thorough", 1200, 800)):
+for _tier, _twins, _cons in (("quick", 50, 30), ("thorough", 1000, 600)):
     FLOORS[_tier].update({"twins:" + k: int(0.4 * _twins / 5) for k in ("point_reflected", "mirrored_about_mean", "bbox_mirrored", "re_paired", "same_bbox")})
     FLOORS[_tier].update({"twins:history:" + k: int(0.4 * _twins) for k in ("array_fresh_objects", "array_in_place", "grid_form", "grid_form_in_place",
                                                                           "pg_fresh_objects", "pg_in_place")})
@@ -100,6 +104,14 @@ for _tier, _twins, _cons in (("quick", 60, 40), ("thorough", 1200, 800)):
                           "eval:twins_masks_differ": 100 * _twins, "eval:twins_history_free": 850 * _twins, "eval:twins_pg_history_free": 50 * _twins,
                           "eval:construction_invariance": 470 * _cons, "constructions:square": int(0.12 * _cons), "constructions:non_square": int(0.25 * _cons)})
     FLOORS[_tier].update({"construction:" + k: int(0.4 * _cons) for k in CONSTRUCTION_CLASSES})
+for _tier, _n, _pg in (("quick", 60, 600), ("thorough", 1200, 12000)):
+    FLOORS[_tier].update({"axes:%s:%s" % (o, sp): int(0.4 * _n / 8) for o in AXES_ORIENTATIONS_ for sp in ("uniform", "uneven")})
+    FLOORS[_tier].update({"eval:mask_axes_agree": 40 * _n,
+                          "pg:input_axes:northing_descending:uniform": int(0.03 * _pg), "pg:input_axes:easting_descending:uniform": int(0.02 * _pg),
+                          "pg:input_axes:both_descending:uniform": int(0.02 * _pg), "pg:input_axes:ascending:uneven": int(0.06 * _pg),
+                          "pg:input_axes:northing_descending:uneven": int(0.01 * _pg), "pg:name_none": int(0.06 * _pg), "pg:name_falsy_int": int(0.015 * _pg),
+                          "pg:name_falsy_str": int(0.015 * _pg), "pg:name_falsy_bool": int(0.015 * _pg), "pg:name_falsy_float": int(0.015 * _pg),
+                          "pg:name_non_string_tuple": int(0.015 * _pg), "pg:name_non_string_int64": int(0.015 * _pg), "pg:name_non_string_int": int(0.015 * _pg)})
 JOBS = {"quick": 1, "thorough": 8}
 CASE_TIMEOUT_S = 300
 
@@ -108,9 +120,9 @@ _STATE = {}
 
 def plan(tier):
     if tier == "quick":
-        out = collections.OrderedDict(cloud=300, lattice=150, thin=200, affine=120, forms=120, layouts=60, twins=60, constructions=40, pg_affine=250, pg_general=350)
+        out = collections.OrderedDict(cloud=300, lattice=150, thin=200, affine=120, forms=120, layouts=50, twins=50, constructions=30, axes=60, pg_affine=250, pg_general=350)
     else:
-        out = collections.OrderedDict(cloud=6000, lattice=3000, thin=4000, affine=2400, forms=2400, layouts=1200, twins=1200, constructions=800, pg_affine=5000, pg_general=7000)
+        out = collections.OrderedDict(cloud=6000, lattice=3000, thin=4000, affine=2400, forms=2400, layouts=1000, twins=1000, constructions=600, axes=1200, pg_affine=5000, pg_general=7000)
     # two small always-on streams reproduce the known findings F10 / F11 (known_findings.json) in every run: case 0 of each is a fixed
     # witness, the rest are seeded inputs of the same class. Everything they trigger must match the finding's classifier below,
     # anything else is reported as a plain violation.
@@ -180,6 +192,21 @@ def layout_of(arr):
     if not arr.flags.writeable:
         tags.append("readonly")
     return "_".join(tags)
+
+
+def axes_class(east, north):
+    """orientation:spacing class of a grid's two coordinate vectors."""
+    def one(v):
+        d = np.diff(np.asarray(v, dtype="float64"))
+        if d.size == 0:
+            return "single", True
+        direction = "ascending" if np.all(d > 0) else "descending" if np.all(d < 0) else "unordered"
+        uniform = bool(np.max(np.abs(d - d.mean())) <= 1e-9 * np.max(np.abs(d)))
+        return direction, uniform
+    (de_, ue), (dn_, un) = one(east), one(north)
+    orient = {("ascending", "ascending"): "ascending", ("ascending", "descending"): "northing_descending",
+              ("descending", "ascending"): "easting_descending", ("descending", "descending"): "both_descending"}.get((de_, dn_), "other")
+    return "%s:%s" % (orient, "uniform" if ue and un else "uneven")
 
 
 def _qhull_error():
@@ -430,8 +457,12 @@ def install(tap, run):
         if not isinstance(res, xr.DataArray):
             fail("pg_container", "result is %s, not a DataArray" % type(res).__name__, "type")
             return
-        if res.name != want_name:
-            fail("pg_container", "result is named %r, the input grid %r (expected %r)" % (res.name, grid.name, want_name), "name")
+        run.count("pg:name_%s" % ("none" if grid.name is None else "str" if isinstance(grid.name, str) and grid.name else
+                                  "falsy_%s" % type(grid.name).__name__ if not grid.name else "non_string_%s" % type(grid.name).__name__))
+        same_name = type(res.name) is type(want_name) and res.name == want_name
+        if not same_name:
+            fail("pg_container", "result is named %r (%s), the input grid %r (%s): expected %r - only a grid without a name becomes 'scalars'"
+                 % (res.name, type(res.name).__name__, grid.name, type(grid.name).__name__, want_name), "name")
         if tuple(res.dims) != want_dims:
             fail("pg_container", "result dims %r, expected %r (northing-like first, as in the input)" % (tuple(res.dims), want_dims), "dims")
             return
@@ -579,6 +610,7 @@ def install(tap, run):
                          % (method_name, vmin, vmax, over, float(flat[finite].min()), float(flat[finite].max())), "range:" + method_name)
         run.count("pg:method_%s:antialias_%s" % (method_name, bool(antialias)))
         run.count("pg:grid_values_layout:%s" % layout_of(grid.values))
+        run.count("pg:input_axes:%s" % axes_class(np.asarray(grid.coords[dims[1]].values), np.asarray(grid.coords[dims[0]].values)))
         run.count("pg:projection_%s" % label)
         run.count("pg:holes_%s" % ("yes" if not valid.all() else "no"))
         run.count("pg:kwargs_%s" % ("+".join(sorted(kwargs)) or "none"))
@@ -693,6 +725,16 @@ def random_grid(rng, tier_big=False):
     s = float(rng.choice([0.0, 1.0, 40.0]) * scale * rng.uniform(-1, 1))
     east = np.linspace(w, w + scale * rng.uniform(0.5, 2), n_e)
     north = np.linspace(s, s + scale * rng.uniform(0.5, 2), n_n)
+    if rng.random() < 0.3:  # unevenly spaced (monotone) axes: cell sizes vary by up to a factor of four
+        east = east[0] + np.concatenate([[0.0], np.cumsum(rng.uniform(0.5, 2.0, n_e - 1))]) * (east[-1] - east[0]) / (n_e - 1) / 1.25
+        north = north[0] + np.concatenate([[0.0], np.cumsum(rng.uniform(0.5, 2.0, n_n - 1))]) * (north[-1] - north[0]) / (n_n - 1) / 1.25
+    flip = rng.random()
+    if flip < 0.15:  # north-up rasters and other decreasing axes
+        north = north[::-1].copy()
+    elif flip < 0.25:
+        east = east[::-1].copy()
+    elif flip < 0.35:
+        east, north = east[::-1].copy(), north[::-1].copy()
     e2, n2 = np.meshgrid(east, north)
     values = gen.smooth_field(rng, e2, n2) + float(rng.choice([0.0, 10.0, -1e3])) * rng.uniform(0, 1)
     holes = str(rng.choice(["none", "none", "interior", "corner", "band", "scattered_edge"]))
@@ -702,7 +744,8 @@ def random_grid(rng, tier_big=False):
         values[mask] = np.nan
     elif holes == "corner":
         cut = rng.uniform(0.3, 0.9)
-        u, v = (e2 - east[0]) / (east[-1] - east[0]), (n2 - north[0]) / (north[-1] - north[0])
+        u = (e2 - east.min()) / (east.max() - east.min())
+        v = (n2 - north.min()) / (north.max() - north.min())
         if rng.random() < 0.5:
             u = 1 - u
         if rng.random() < 0.5:
@@ -719,7 +762,8 @@ def random_grid(rng, tier_big=False):
     if np.isfinite(values).sum() < 4:
         values = np.where(np.isnan(values), 1.0, values)
     dims = [("northing", "easting"), ("latitude", "longitude"), ("y", "x")][int(rng.integers(0, 3))]
-    name = [None, "scalars", "temperature", "yara"][int(rng.integers(0, 4))]
+    # only a missing name becomes "scalars": falsy and non-string names are names
+    name = [None, "scalars", "temperature", "yara", None, "temperature", 0, 0.0, "", False, 1, (1, 2), np.int64(3), True, 2.5][int(rng.integers(0, 15))]
     grid = xr.DataArray(values, coords={dims[0]: north, dims[1]: east}, dims=dims, name=name)
     return grid, holes
 
@@ -959,6 +1003,8 @@ def run_case(run, tap, stream, index, rng):  # noqa: U100
         _twins_case(run, verde, make_hull, index, rng)
     elif stream == "constructions":
         _constructions_case(run, verde, make_hull, index, rng)
+    elif stream == "axes":
+        _axes_case(run, verde, make_hull, index, rng)
     elif stream == "thin_vertices":
         # known finding F11: data points of a thin rotated cloud queried against their own hull
         if index == 0:
@@ -1536,6 +1582,101 @@ def _constructions_case(run, verde, make_hull, index, rng):
                           {"construction": label, "values": pvals, "easting": e, "northing": nn, "projection": repr(proj), "method": method, "antialias": antialias,
                            "result_canonical": b_, "result": a_}, key="construction:pg:" + label)
     run.sample("constructions", {"grid_shape": [n_n, n_e], "dims": [dn, de], "classes": list(builds) + ["project_grid:" + k for k in arrays]})
+
+
+AXES_ORIENTATIONS = ["ascending", "northing_descending", "easting_descending", "both_descending"]
+
+
+def _axes_case(run, verde, make_hull, index, rng):
+    """
+    The grid form must be evaluated at the grid's OWN node coordinates - decreasing (north-up rasters) and unevenly spaced axes
+    included. Hulls that are not symmetric under a flip (triangles, L-shapes); compared with the array form on the same nodes.
+    """
+    import xarray as xr
+
+    scale = float(10 ** rng.uniform(-2, 5))
+    ox, oy = (float(rng.choice([0.0, 1.0, 30.0]) * scale * rng.uniform(-1, 1)) for _ in range(2))
+    shape_kind = ["triangle", "l_shape", "right_triangle_corner", "wedge"][index % 4]
+    if shape_kind == "triangle":
+        verts = np.array([[0.1, 0.15], [0.9, 0.3], [0.25, 0.95]])
+    elif shape_kind == "l_shape":
+        verts = np.array([[0.1, 0.1], [0.9, 0.1], [0.9, 0.35], [0.4, 0.35], [0.4, 0.9], [0.1, 0.9]])
+    elif shape_kind == "right_triangle_corner":
+        verts = np.array([[0.05, 0.05], [0.95, 0.05], [0.05, 0.6]])
+    else:
+        verts = np.array([[0.5, 0.1], [0.95, 0.9], [0.7, 0.95]])
+    verts = verts + rng.uniform(-0.03, 0.03, verts.shape)
+    extra = int(rng.integers(0, 25))
+    w = rng.dirichlet(np.ones(3), extra)
+    inner = w @ verts[:3] if extra else np.zeros((0, 2))
+    pts = np.vstack([verts, inner])
+    pts = pts[rng.permutation(len(pts))]
+    dx, dy = pts[:, 0] * scale + ox, pts[:, 1] * scale * float(rng.uniform(0.5, 2)) + oy
+    hull = make_hull(dx, dy)
+    if hull.degenerate:
+        return
+    n_e = int(rng.integers(5, 24))
+    n_n = n_e if index % 5 == 0 else int(rng.integers(4, 24))
+    spacing = "uneven" if index % 2 else "uniform"
+    orient = AXES_ORIENTATIONS[(index // 2) % 4]
+
+    def axis(lo, hi, n):
+        if spacing == "uniform":
+            return np.linspace(lo, hi, n)
+        steps = rng.uniform(0.3, 3.0, n - 1)
+        return lo + np.concatenate([[0.0], np.cumsum(steps)]) / steps.sum() * (hi - lo)
+
+    east = axis(dx.min() - 0.15 * np.ptp(dx), dx.max() + 0.25 * np.ptp(dx), n_e)
+    north = axis(dy.min() - 0.25 * np.ptp(dy), dy.max() + 0.1 * np.ptp(dy), n_n)
+    if orient in ("easting_descending", "both_descending"):
+        east = east[::-1].copy()
+    if orient in ("northing_descending", "both_descending"):
+        north = north[::-1].copy()
+    run.count("axes:%s:%s" % (orient, spacing))
+    run.count("axes:hull_%s" % shape_kind)
+    run.count("axes:%s" % ("square" if n_n == n_e else "non_square"))
+    dims = [("northing", "easting"), ("latitude", "longitude"), ("y", "x")][index % 3]
+    vals = rng.normal(size=(n_n, n_e))
+    ds = xr.Dataset({"scalars": (list(dims), vals)}, coords={dims[0]: north, dims[1]: east})
+    e2, n2 = np.meshgrid(east, north)
+    as_grid = _mask_call(run, verde, (dx, dy), grid=ds)
+    as_array = _mask_call(run, verde, (dx, dy), coordinates=(e2, n2))
+    if as_grid is None or as_array is None:
+        return
+    inside, outside, either, depth, margin = hull.classify(e2.ravel(), n2.ravel())
+    decided = (inside | outside).reshape(e2.shape)
+    run.evaluated("mask_axes_agree", int(decided.sum()))
+    got = np.asarray(as_grid["scalars"].values)
+    problem = None
+    if got.shape != e2.shape:
+        problem = "masked variable has shape %r, the grid %r" % (got.shape, e2.shape)
+    else:
+        kept = ~np.isnan(got)
+        if (decided & (kept != np.asarray(as_array))).any():
+            problem = "%d nodes are kept by the grid form and dropped by the array form evaluated at the same node coordinates (or vice versa)" % int(
+                (decided & (kept != np.asarray(as_array))).sum())
+        elif (kept & (got != vals)).any():
+            problem = "kept nodes do not hold the grid's own values"
+        elif not (np.array_equal(np.asarray(as_grid.coords[dims[0]].values), north) and np.array_equal(np.asarray(as_grid.coords[dims[1]].values), east)):
+            problem = "the masked grid does not keep the coordinate vectors it was given"
+    if problem:
+        run.violation("mask_axes_agree", "grid form on %s / %s axes: %s" % (orient, spacing, problem),
+                      {"orientation": orient, "spacing": spacing, "data": [dx, dy], "easting": east, "northing": north, "values": vals,
+                       "array_form_mask": as_array, "grid_form_values": got}, key="axes:%s:%s" % (orient, spacing))
+    # the same grid as project_grid input: an axis-aligned affine map must reproduce the node values wherever nodes coincide
+    pvals = gen.smooth_field(rng, e2, n2)
+    if index % 3 == 0:
+        pvals[(e2 - east.min()) / np.ptp(east) + (n2 - north.min()) / np.ptp(north) < 0.5] = np.nan
+    da = xr.DataArray(pvals, coords={dims[0]: north, dims[1]: east}, dims=dims, name=[None, "field", 0, ""][index % 4])
+    proj = axis_affine(rng, east, north)
+    try:
+        with warnings.catch_warnings():
+            warnings.simplefilter("ignore")
+            verde.project_grid(da, proj, method=["linear", "nearest", "cubic"][index % 3], antialias=bool(index % 4 == 3))
+    except _STATE["QhullError"]:
+        run.count("refused:project_grid_qhull (counted, not failed)")
+    run.sample("axes", {"orientation": orient, "spacing": spacing, "hull": shape_kind, "easting": east[:8], "northing": north[:8], "grid_shape": [n_n, n_e],
+                        "monitor": "grid form vs exact hull at the grid's own nodes and vs the array form on meshgrid(easting, northing)"})
 
 
 def finish(run, tap, shard):  # noqa: U100
